@@ -358,7 +358,7 @@ def build_project(cat, layout, exclude=()):
 
 
 CLASS_OF = {"geo": "geo", "shape": "shape", "scale": "scale", "sizevar": "sizevar", "comp": "comp", "main": "main", "other": "other",
-            "file": "global", "proj": "global", "page0": "global", "page1": "global", "page2": "global", "page2b": "global",
+            "file": "global", "proj": "global", "projsum": "global", "projauth": "global", "page0": "global", "page1": "global", "page2": "global", "page2b": "global",
             "submod": "submod", "perim": "perim", "areaproc": "areaproc"}
 EXTRA_CLASS = {
     # contexts whose lookup differs from 'global' only by their own / parent's contents
@@ -414,6 +414,11 @@ def run_layout(st: Stats, layout, opts_name, opts, _exclude=None):
     files, body = build_project(cat, layout, _exclude or set())
     o = dict(page_dir="pages", incl_src=True, search=False)
     o.update(opts)
+    # the project's `summary` and `author_description` options are documentation text too (shown on the front page)
+    ex = _exclude or set()
+    o["summary"] = " ".join(t for t in ref_text("projsum", cat, "batched", {("projsum", k) for (c, k) in ex if c == "proj"}))
+    o["author"] = "A. Person"
+    o["author_description"] = " ".join(t for t in ref_text("projauth", cat, "batched", {("projauth", k) for (c, k) in ex if c == "proj"}))
     r = fordrun.build(files, o, stage="write", proj_body=body)
     st.evaluations += 1
     stratum = f"{layout}/{opts_name}"
@@ -433,7 +438,8 @@ def run_layout(st: Stats, layout, opts_name, opts, _exclude=None):
         for rel, pg in sorted(site.pages.items()):
             if rel.startswith("sourcefile/"):
                 continue  # the verbatim source listing is not converted documentation
-            for m in MARK_RE.finditer(pg.raw):
+            # (the project summary is repeated, stripped of its tags, in the <meta name="description"> of every page: not a place for links)
+            for m in MARK_RE.finditer(re.sub(r"<meta\b[^>]*>", "", pg.raw)):
                 ctx, k, inner = m.group(1), int(m.group(2)), m.group(3)
                 if ctx not in CLASS_OF or k >= len(cat):
                     continue
